@@ -394,6 +394,8 @@ def _shard(spec, acc):
     idx = 0
     for limit in limits(tier):
         for qn, goal in queries():
+            if limit > 400 and qn not in ('findall-300', 'nat', 'flat', 'pyg12', 'mixed-sources'):
+                continue        # the three bounds near the interpreter's own limit: for five of the queries
             for pn in pnames:
                 idx += 1
                 if idx % n != k:
